@@ -96,7 +96,8 @@ static void sec_ctr(void)
             if (clen != 99) r &= ctr_set_counter((Cipher)c, &o, clen ? ctr : NULL, clen);
             for (i = 0; CUTS[cut][i] || (i == 2 && cut == 4); ++i) {
                 int n = CUTS[cut][i];
-                r &= ctr_encrypt((Cipher)c, &o, sbuf_out + pos, sbuf_in + pos, (size_t)n);
+                if (cut == 2 || cut == 5) { memcpy(sbuf_out + pos, sbuf_in + pos, (size_t)n); r &= ctr_encrypt((Cipher)c, &o, sbuf_out + pos, sbuf_out + pos, (size_t)n); }   /* in place */
+                else r &= ctr_encrypt((Cipher)c, &o, sbuf_out + pos, sbuf_in + pos, (size_t)n);
                 pos += (size_t)n;
                 if (cut == 1 && i == 0 && clen != 99 && clen > 0) {      /* a seek inside the batch that is still buffered, then one far away */
                     uint8_t c2[16]; memcpy(c2, ctr, 16); c2[clen - 1] = (uint8_t)(c2[clen - 1] + 3);
